@@ -146,7 +146,7 @@ READER_TB = [
 ]
 
 PROPS["C04"] = {
-    "lean": ["WsVerif.Props.C04", "WsVerif.Props.C04Cb", "WsVerif.Props.C04Discard", "WsVerif.Props.C04DiscardMsg", "WsVerif.Props.C04DiscardText", "WsVerif.Props.C04ReadMessage", "WsVerif.Props.C04ReadAll", "WsVerif.Props.C04ReadMessageFrag", "WsVerif.Props.C04ReadData", "WsVerif.Props.C04ReadDataSkip", "WsVerif.Bridge.C04"],
+    "lean": ["WsVerif.Props.C04", "WsVerif.Props.C04Cb", "WsVerif.Props.C04Discard", "WsVerif.Props.C04DiscardMsg", "WsVerif.Props.C04DiscardText", "WsVerif.Props.C04ReadMessage", "WsVerif.Props.C04ReadAll", "WsVerif.Props.C04ReadMessageFrag", "WsVerif.Props.C04ReadData", "WsVerif.Props.C04ReadDataSkip", "WsVerif.Props.C08ReadData", "WsVerif.Bridge.C04"],
     "rule": "Valid frame streams from a grammar (1-4 messages, 1-4 fragments incl. empty ones, ping/pong with 0..125-byte payloads between "
             "fragments and between messages, payload classes 0,1,2,7,8,125,126,300 (+70000 in thorough), text built from 1-4-byte code "
             "points, both sides) replayed under transport chunkings {whole,1,2,3,7,random}, EOF and data-with-EOF transports, through "
@@ -188,7 +188,7 @@ PROPS["C16"] = {
 }
 
 PROPS["C08"] = {
-    "lean": ["WsVerif.Props.C08", "WsVerif.Props.C04Cb", "WsVerif.Props.C04ReadAll", "WsVerif.Props.C04ReadMessageFrag", "WsVerif.Bridge.C08"],
+    "lean": ["WsVerif.Props.C08", "WsVerif.Props.C08ReadData", "WsVerif.Props.C04Cb", "WsVerif.Props.C04ReadAll", "WsVerif.Props.C04ReadMessageFrag", "WsVerif.Bridge.C08"],
     "rule": "ControlHandler.Handle (masked source on the server side), ControlFrameHandler and HandleControlMessage (Client/Server variants) "
             "for ping, pong, close x payload lengths 0..125 (all in thorough; 0..12, every 9th, 118..125 in quick) x both sides; all 65,536 "
             "close codes (thorough; 1/13 + the boundary windows in quick) with no / valid / truncated / 0xFF reasons; 1-byte close payloads; "
